@@ -278,7 +278,7 @@ func TestVerif_C42(t *testing.T) {
 	vh.Check(t, "concat", 150, 300, func(rt *rapid.T) { c42ConcatCase(rt, recC, 10, 0) })
 	vh.Check(t, "concat_git", 3, 6, func(rt *rapid.T) { c42ConcatCase(rt, recC, 0, 100) })
 	vh.Check(t, "cas", 200, 380, func(rt *rapid.T) { c42CasCase(rt, recS, 14, 0) })
-	vh.Check(t, "cas_git", 4, 10, func(rt *rapid.T) { c42CasCase(rt, recS, 0, 100) })
+	vh.Check(t, "cas_git", 5, 10, func(rt *rapid.T) { c42CasCase(rt, recS, 0, 100) })
 	recG := vh.NewRecorder("C42", "conc", "exploration", c42ConcRule, append(assume,
 		"one goroutine per client handle (a GitBlobstore handle deliberately serves its cached manifest to readers while its own write is in flight, so a handle is one sequential client)")...)
 	defer recG.Write(t)
